@@ -55,6 +55,20 @@ def run(chk):
     ngroups = 300 if chk.tier == "quick" else 3000
     nshuf = 4 if chk.tier == "quick" else 12
     solos = []; groups = []
+    # deterministic group (D24): a class rule asks for an OK from b.svc; client 5 has its OK, then a reload drops b.svc while client 6
+    # still awaits it (so the slot lives on, unconfigured); whether 5 gets the rule's class must not depend on 6 being there
+    for acc in ("5 H", "5 U u :r"):
+        svcs = [('a.svc', 'login'), ('b.svc', 'login')]
+        rules = [dict(name='10-m', xreply_ok='b.svc', **{'class': 'members'}), dict(name='20-g', **{'class': 'guests'})]
+        s5 = Scn(True, True, svcs, rules, 0, [], "solo client 5 (xreply_ok from a dropped service)")
+        s6 = Scn(True, True, svcs, rules, 0, [], "solo client 6 (still awaits the dropped service)")
+        new = [('a.svc', 'login')]
+        pre5 = ["5 C 1.2.3.4 1005 10.1.1.1 6667", "5 N h.example.org", "5 u id", "5 n Nick", "5 P :+x acct pw", "-1 X b.svc 5_1 :OK"]
+        pre6 = ["6 C 1.2.3.6 1006 10.1.1.1 6667", "6 P :+x c d"]
+        s5.items = L(*pre5) + [('R', new, rules, 0)] + L("-1 X a.svc 5_1 :OK acct:1", acc, "5 H", "5 D")
+        s6.items = L(*pre6) + [('R', new, rules, 0)] + L("6 H", "-1 X b.svc 6_1 :OK", "-1 X a.svc 6_1 :OK c:2", "6 D")
+        groups.append((svcs, rules, 0, [(5, s5), (6, s6)], (new, rules, 0, {5: len(pre5), 6: len(pre6)})))
+        chk.hist("group:xreply_ok from a service dropped while another client awaits it (D24)")
     for g in range(ngroups):
         k = rng.choice([2, 2, 3, 4])
         svcs, rules = gen_tables(rng, dict(nsv=[1, 2, 3]))
